@@ -452,11 +452,12 @@ func RetrySubmit(ctx context.Context, f func(context.Context, ChangeOps) (string
 			return err
 		}
 		tries++
-		remain := ec.CommitRetries - tries
-		// 1 try is 0 retries, so < 0 means there are no retries left.
-		if remain < 0 {
+		// 1 try is 0 retries, so more tries than retries means there are no retries left. Compared
+		// before subtracting: CommitRetries - tries wraps around for the most negative budget.
+		if tries > ec.CommitRetries {
 			break
 		}
+		remain := ec.CommitRetries - tries
 		output.Debugf(ctx, "Warning: Retrying (%d retries left) submission", remain)
 	}
 	return ErrNoRetries
